@@ -8,6 +8,12 @@
 //   - p is a conjunction of comparisons of one column with a constant; every
 //     comparison on a nullable column is rendered guarded (`c IS NOT NULL AND c < 5`)
 //     so that three-valued logic never decides anything; plus `c IS NULL`;
+//   - a bounded DDL subset inside transactions: ALTER TABLE t DROP CONSTRAINT name (named
+//     CHECK constraints of the shape `col op const` on a NOT NULL column), ALTER TABLE t
+//     ADD COLUMN x INTEGER (the new column is never written, only probed with
+//     `x IS NULL`), CREATE INDEX ON t(col) (no effect on results); DDL is part of the
+//     transaction's private state like any other change, so another transaction sees it
+//     only once it is committed; programs with DDL use no savepoints;
 //   - SAVEPOINT / ROLLBACK TO SAVEPOINT / RELEASE SAVEPOINT with unique names,
 //     where a name is never used again after it was rolled back to or released
 //     (the engines disagree on the lifetime of a name; the programs avoid the question).
@@ -20,7 +26,7 @@
 //
 // Facts learnt from the engine and modelled exactly: a failed statement aborts
 // the whole transaction (Engine.ExecPreparedStmts cancels it); per inserted row
-// the NOT NULL check precedes the duplicate-key check; the AUTO_INCREMENT
+// the NOT NULL check precedes the CHECK constraints, which precede the duplicate-key check; the AUTO_INCREMENT
 // counter is the largest key ever committed (deleted rows included) and is not
 // given back by ROLLBACK TO SAVEPOINT (as with PostgreSQL sequences).
 //
@@ -54,7 +60,18 @@ type Schema struct {
 	Name    string
 	AutoInc bool
 	Cols    []Col
-	Index   []string // columns with a secondary (non-unique) index; irrelevant to the model
+	Index   []string       // columns with a secondary (non-unique) index; irrelevant to the model
+	Checks  map[string]Cmp // named CHECK constraints the table is created with
+}
+
+// colIndex is ColIdx for names that may be columns added later (-1).
+func (s *Schema) colIndex(name string) int {
+	for i, c := range s.Cols {
+		if c.Name == name {
+			return i
+		}
+	}
+	return -1
 }
 
 func (s *Schema) ColIdx(name string) int {
@@ -71,10 +88,12 @@ type Val = any
 type Row []Val
 
 type Table struct {
-	Schema  *Schema
-	Rows    map[int64]Row
-	MaxPK   int64
-	deleted map[int64]bool // keys deleted by the running transaction (OwnDeleteBlocksInsert only)
+	Schema *Schema
+	Rows   map[int64]Row
+	MaxPK  int64
+	Checks map[string]Cmp  // CHECK constraints in force
+	Extra  map[string]bool // columns added by ALTER TABLE (always NULL)
+	Idx    map[string]bool // columns indexed by CREATE INDEX after the table was created
 }
 
 type DB struct{ Tables map[string]*Table }
@@ -88,11 +107,15 @@ func (db *DB) Clone() *DB {
 		for k, r := range t.Rows {
 			nt.Rows[k] = append(Row(nil), r...)
 		}
-		for k := range t.deleted {
-			if nt.deleted == nil {
-				nt.deleted = map[int64]bool{}
-			}
-			nt.deleted[k] = true
+		nt.Checks, nt.Extra, nt.Idx = map[string]Cmp{}, map[string]bool{}, map[string]bool{}
+		for k, v := range t.Checks {
+			nt.Checks[k] = v
+		}
+		for k := range t.Extra {
+			nt.Extra[k] = true
+		}
+		for k := range t.Idx {
+			nt.Idx[k] = true
 		}
 		out.Tables[n] = nt
 	}
@@ -174,7 +197,7 @@ func (p Pred) sql(s *Schema) string {
 			parts[i] = c.Col + " IS NULL"
 		case c.Op == "notnull":
 			parts[i] = c.Col + " IS NOT NULL"
-		case s.ColIdx(c.Col) == 0: // the primary key is never NULL
+		case s.colIndex(c.Col) == 0: // the primary key is never NULL
 			parts[i] = fmt.Sprintf("%s %s %s", c.Col, c.Op, lit(c.Val))
 		default:
 			parts[i] = fmt.Sprintf("%s IS NOT NULL AND %s %s %s", c.Col, c.Col, c.Op, lit(c.Val))
@@ -211,7 +234,10 @@ func cmpVals(a, b Val) int {
 
 func (p Pred) match(s *Schema, r Row) bool {
 	for _, c := range p {
-		v := r[s.ColIdx(c.Col)]
+		var v Val // a column added by ALTER TABLE is NULL in every row
+		if i := s.colIndex(c.Col); i >= 0 {
+			v = r[i]
+		}
 		switch c.Op {
 		case "isnull":
 			if v != nil {
@@ -254,16 +280,19 @@ func (p Pred) match(s *Schema, r Row) bool {
 
 // Statement kinds.
 const (
-	Create     = "create"
-	Insert     = "insert"
-	Upsert     = "upsert"
-	Update     = "update"
-	Delete     = "delete"
-	Select     = "select"
-	Count      = "count"
-	Savepoint  = "savepoint"
-	RollbackTo = "rollbackto"
-	Release    = "release"
+	Create      = "create"
+	Insert      = "insert"
+	Upsert      = "upsert"
+	Update      = "update"
+	Delete      = "delete"
+	Select      = "select"
+	Count       = "count"
+	DropCheck   = "dropcheck"   // ALTER TABLE Table DROP CONSTRAINT Name
+	AddColumn   = "addcolumn"   // ALTER TABLE Table ADD COLUMN Name INTEGER
+	CreateIndex = "createindex" // CREATE INDEX ON Table(Name)
+	Savepoint   = "savepoint"
+	RollbackTo  = "rollbackto"
+	Release     = "release"
 )
 
 type Assign struct {
@@ -284,7 +313,10 @@ type Stmt struct {
 }
 
 func (s *Stmt) IsDML() bool {
-	return s.Kind == Insert || s.Kind == Upsert || s.Kind == Update || s.Kind == Delete || s.Kind == Create
+	return s.Kind == Insert || s.Kind == Upsert || s.Kind == Update || s.Kind == Delete || s.Kind == Create || s.IsDDL()
+}
+func (s *Stmt) IsDDL() bool {
+	return s.Kind == DropCheck || s.Kind == AddColumn || s.Kind == CreateIndex
 }
 func (s *Stmt) IsQuery() bool { return s.Kind == Select || s.Kind == Count }
 
@@ -301,6 +333,15 @@ func (s *Stmt) SQL(sch *Schema) string {
 				d += " NOT NULL"
 			}
 			cols = append(cols, d)
+		}
+		names := make([]string, 0, len(s.Schema.Checks))
+		for n := range s.Schema.Checks {
+			names = append(names, n)
+		}
+		sort.Strings(names)
+		for _, n := range names {
+			c := s.Schema.Checks[n]
+			cols = append(cols, fmt.Sprintf("CONSTRAINT %s CHECK (%s %s %s)", n, c.Col, c.Op, lit(c.Val)))
 		}
 		out := fmt.Sprintf("CREATE TABLE %s (%s, PRIMARY KEY %s)", s.Schema.Name, strings.Join(cols, ", "), s.Schema.Cols[0].Name)
 		for _, ix := range s.Schema.Index {
@@ -338,6 +379,12 @@ func (s *Stmt) SQL(sch *Schema) string {
 			q += " ORDER BY " + sch.Cols[0].Name
 		}
 		return q
+	case DropCheck:
+		return fmt.Sprintf("ALTER TABLE %s DROP CONSTRAINT %s", s.Table, s.Name)
+	case AddColumn:
+		return fmt.Sprintf("ALTER TABLE %s ADD COLUMN %s INTEGER", s.Table, s.Name)
+	case CreateIndex:
+		return fmt.Sprintf("CREATE INDEX ON %s(%s)", s.Table, s.Name)
 	case Savepoint:
 		return "SAVEPOINT " + s.Name
 	case RollbackTo:
@@ -350,10 +397,15 @@ func (s *Stmt) SQL(sch *Schema) string {
 
 // Error classes of a failed statement.
 const (
-	ErrDup     = "duplicate-key"
-	ErrNotNull = "not-null"
-	ErrExists  = "table-exists"
-	ErrNoSP    = "no-savepoint"
+	ErrDup      = "duplicate-key"
+	ErrNotNull  = "not-null"
+	ErrExists   = "table-exists"
+	ErrNoSP     = "no-savepoint"
+	ErrCheck    = "check-violation"
+	ErrNoCheck  = "no-such-constraint"
+	ErrNoColumn = "no-such-column"
+	ErrColumn   = "column-exists"
+	ErrIndex    = "index-exists"
 )
 
 // Result of one statement. Updated, First and Last are the transaction's
@@ -377,23 +429,17 @@ type savepoint struct {
 type Tx struct {
 	DB         *DB
 	KeepWrites bool
-	// OwnDeleteBlocksInsert selects another attribution-only interpreter: INSERT of a key
-	// that this transaction deleted earlier fails as a duplicate.
-	OwnDeleteBlocksInsert bool
-	Aborted    bool
-	Updated    int
-	First      map[string]int64
-	Last       map[string]int64
-	sps        []savepoint
+
+	Aborted bool
+	Updated int
+	First   map[string]int64
+	Last    map[string]int64
+	sps     []savepoint
 }
 
 // Begin starts a transaction on a private copy of snapshot.
 func Begin(snapshot *DB, keepWrites bool) *Tx {
-	tx := &Tx{DB: snapshot.Clone(), KeepWrites: keepWrites, First: map[string]int64{}, Last: map[string]int64{}}
-	for _, t := range tx.DB.Tables {
-		t.deleted = nil
-	}
-	return tx
+	return &Tx{DB: snapshot.Clone(), KeepWrites: keepWrites, First: map[string]int64{}, Last: map[string]int64{}}
 }
 
 func cpMap(m map[string]int64) map[string]int64 {
@@ -420,7 +466,11 @@ func (tx *Tx) Exec(s *Stmt) Result {
 		if _, ok := tx.DB.Tables[s.Schema.Name]; ok {
 			return tx.fail(ErrExists)
 		}
-		tx.DB.Tables[s.Schema.Name] = &Table{Schema: s.Schema, Rows: map[int64]Row{}}
+		nt := &Table{Schema: s.Schema, Rows: map[int64]Row{}, Checks: map[string]Cmp{}, Extra: map[string]bool{}, Idx: map[string]bool{}}
+		for n, c := range s.Schema.Checks {
+			nt.Checks[n] = c
+		}
+		tx.DB.Tables[s.Schema.Name] = nt
 	case Insert, Upsert:
 		t := tx.DB.Tables[s.Table]
 		sch := t.Schema
@@ -435,6 +485,9 @@ func (tx *Tx) Exec(s *Stmt) Result {
 					return tx.fail(ErrNotNull)
 				}
 			}
+			if !t.checksHold(row) {
+				return tx.fail(ErrCheck)
+			}
 			if sch.AutoInc && !given[0] {
 				t.MaxPK++
 				row[0] = t.MaxPK
@@ -447,9 +500,7 @@ func (tx *Tx) Exec(s *Stmt) Result {
 			if _, exists := t.Rows[pk]; exists && s.Kind == Insert {
 				return tx.fail(ErrDup)
 			}
-			if tx.OwnDeleteBlocksInsert && s.Kind == Insert && t.deleted[pk] {
-				return tx.fail(ErrDup)
-			}
+
 			t.Rows[pk] = row
 			if pk > t.MaxPK {
 				t.MaxPK = pk
@@ -463,6 +514,9 @@ func (tx *Tx) Exec(s *Stmt) Result {
 				for _, a := range s.Set {
 					r[t.Schema.ColIdx(a.Col)] = a.Val
 				}
+				if !t.checksHold(r) {
+					return tx.fail(ErrCheck)
+				}
 				tx.Updated++
 			}
 		}
@@ -471,15 +525,39 @@ func (tx *Tx) Exec(s *Stmt) Result {
 		for _, r := range t.Sorted() {
 			if s.Where.match(t.Schema, r) {
 				delete(t.Rows, r[0].(int64))
-				if t.deleted == nil {
-					t.deleted = map[int64]bool{}
-				}
-				t.deleted[r[0].(int64)] = true
 				tx.Updated++
 			}
 		}
+	case DropCheck:
+		t := tx.DB.Tables[s.Table]
+		if _, ok := t.Checks[s.Name]; !ok {
+			return tx.fail(ErrNoCheck)
+		}
+		delete(t.Checks, s.Name)
+	case AddColumn:
+		t := tx.DB.Tables[s.Table]
+		if t.Extra[s.Name] || t.Schema.colIndex(s.Name) >= 0 {
+			return tx.fail(ErrColumn)
+		}
+		t.Extra[s.Name] = true
+	case CreateIndex:
+		t := tx.DB.Tables[s.Table]
+		for _, ix := range t.Schema.Index {
+			if ix == s.Name {
+				return tx.fail(ErrIndex)
+			}
+		}
+		if t.Idx[s.Name] {
+			return tx.fail(ErrIndex)
+		}
+		t.Idx[s.Name] = true
 	case Select, Count:
 		t := tx.DB.Tables[s.Table]
+		for _, c := range s.Where {
+			if t.Schema.colIndex(c.Col) < 0 && !t.Extra[c.Col] {
+				return tx.fail(ErrNoColumn)
+			}
+		}
 		n := int64(0)
 		for _, r := range t.Sorted() {
 			if !s.Where.match(t.Schema, r) {
@@ -526,6 +604,16 @@ func (tx *Tx) Exec(s *Stmt) Result {
 	return Result{Rows: rows, Updated: tx.Updated, First: cpMap(tx.First), Last: cpMap(tx.Last)}
 }
 
+// checksHold evaluates the CHECK constraints in force on a row (constrained columns are NOT NULL).
+func (t *Table) checksHold(r Row) bool {
+	for _, c := range t.Checks {
+		if !(Pred{c}).match(t.Schema, r) {
+			return false
+		}
+	}
+	return true
+}
+
 // SelfCheck runs a tiny fixed program through both interpreters; it returns an
 // error text when the interpreter does not do what its doc comment says.
 func SelfCheck() string {
@@ -562,6 +650,18 @@ func SelfCheck() string {
 	}
 	if len(committed.Tables["t"].Rows) != 2 || len(base.Tables) != 0 {
 		return "snapshot was modified"
+	}
+	csch := &Schema{Name: "c", Cols: []Col{{"id", Int, true}, {"n", Int, true}}, Checks: map[string]Cmp{"small": {"n", "<", int64(100)}}}
+	tx = Begin(base, false)
+	tx.Exec(&Stmt{Kind: Create, Schema: csch})
+	withCheck := tx.DB
+	bad := &Stmt{Kind: Insert, Table: "c", Cols: []string{"id", "n"}, Rows: [][]Val{{int64(1), int64(500)}}}
+	tx = Begin(withCheck, false)
+	if tx.Exec(&Stmt{Kind: DropCheck, Table: "c", Name: "small"}).Err != "" || tx.Exec(bad).Err != "" {
+		return "drop constraint inside the transaction"
+	}
+	if Begin(withCheck, false).Exec(bad).Err != ErrCheck {
+		return "an uncommitted DROP CONSTRAINT leaked into the snapshot"
 	}
 	if q := (&Stmt{Kind: Select, Table: "t", Cols: []string{"id"}, Where: Pred{{"n", "<", int64(5)}, {"s", "isnull", nil}}}).SQL(sch); q != "SELECT id FROM t WHERE n IS NOT NULL AND n < 5 AND s IS NULL ORDER BY id" {
 		return "rendering: " + q
